@@ -131,6 +131,7 @@ type ABI struct {
 	S        *Script
 	Genesis  *labi.InitGenesisStateResponse
 	Calls    []string // names of the calls received since the last ResetCalls
+	OnInit   func(h *blockchain.BlockHeader) // optional: called at InitStateMachine (start of every block step) before answering
 	txCursor int
 }
 
@@ -158,6 +159,9 @@ func (m *ABI) Init(req *labi.InitRequest) (*labi.InitResponse, error) { return &
 func (m *ABI) InitStateMachine(req *labi.InitStateMachineRequest) (*labi.InitStateMachineResponse, error) {
 	m.log("InitStateMachine")
 	m.txCursor = 0
+	if m.OnInit != nil {
+		m.OnInit(req.Header)
+	}
 	if m.s().FailInitStateMachine {
 		return nil, errScript
 	}
@@ -245,6 +249,19 @@ func (m *ABI) Finalize(req *labi.FinalizeRequest) (*labi.FinalizeResponse, error
 func (m *ABI) GetMetadata(req *labi.MetadataRequest) (*labi.MetadataResponse, error) { return nil, nil }
 func (m *ABI) Query(req *labi.QueryRequest) (*labi.QueryResponse, error)             { return nil, nil }
 func (m *ABI) Prove(req *labi.ProveRequest) (*labi.ProveResponse, error)             { return nil, nil }
+
+// nopLogger discards everything (log.NewSilentLogger still prints errors with stack traces to stdout).
+type nopLogger struct{}
+
+func (nopLogger) Debug(string, ...interface{})    {}
+func (nopLogger) Info(string, ...interface{})     {}
+func (nopLogger) Error(string, ...interface{})    {}
+func (nopLogger) Debugf(string, ...interface{})   {}
+func (nopLogger) Infof(string, ...interface{})    {}
+func (nopLogger) Errorf(string, ...interface{})   {}
+func (nopLogger) Warning(string, ...interface{})  {}
+func (nopLogger) Warningf(string, ...interface{}) {}
+func (nopLogger) With(...interface{}) log.Logger  { return nopLogger{} }
 
 // ---------------------------------------------------------------- node
 
@@ -381,10 +398,7 @@ func (n *Node) Reattach() error {
 	n.Chain = blockchain.NewChain(&blockchain.ChainConfig{ChainID: n.Opt.ChainID, MaxTransactionsLength: n.Opt.MaxTxLen,
 		MaxBlockCache: n.Opt.MaxBlockCache, KeepEventsForHeights: n.Opt.KeepEvents})
 	n.Chain.Init(n.Genesis, n.DB)
-	lg, err := log.NewSilentLogger()
-	if err != nil {
-		return err
-	}
+	var lg log.Logger = nopLogger{}
 	conn := p2p.NewConnection(lg, &p2p.Config{ChainID: n.Opt.ChainID})
 	n.Exec = consensus.NewExecuter(&consensus.ExecuterConfig{CTX: n.Ctx, ABI: n.ABI, Chain: n.Chain, Conn: conn,
 		BlockTime: n.Opt.BlockTime, BatchSize: n.Opt.BatchSize})
@@ -702,6 +716,9 @@ func ErrClass(r Result) string {
 		{"invalid certificate received", "aggcommit"},
 		{"invalid signature", "signature"},
 		{"invalid validatorsHash", "vhash"},
+		{"invalid precommit threshold", "setparams"},
+		{"invalid validators size", "setparams"},
+		{"invalid BFT weight", "setparams"},
 		{"invalid number of events", "nevents"},
 		{"invalid event root", "eventroot"},
 		{"transaction root must match", "txroot"},
